@@ -7,7 +7,16 @@ VARIABLE d
 AllOps == Unary \cup Binary \cup Ternary \cup {"read", "write"}
 Kinds  == {"array", "sort", "arrsort", "undefined", "self", "neg_array", "neg_sort", "zero", "other_width", "huge", "bad_wide"}
 Ar(op) == IF op \in Unary THEN 1 ELSE IF op \in Ternary \cup {"write"} THEN 3 ELSE 2
-Init == d \in { [op |-> op, pos |-> p, kind |-> k, ar |-> Ar(op)] : op \in AllOps, p \in 1..3, k \in Kinds } /\ d.pos <= d.ar
+OpDescr == { [op |-> op, pos |-> p, kind |-> k, ar |-> Ar(op), sort |-> 0, st |-> 0, ex |-> 0] : op \in AllOps, p \in 1..3, k \in Kinds }
+(* system lines: the harness declares sorts 1..5 (bv2, bv1, bv2->bv2, bv1->bv2, bv2->bv1), inputs 6 (bv2), 7 (bv1) and
+   states 8 (bv2->bv2), 9 (bv2), 10 (bv1->bv2), 11 (bv2->bv1), 12 (bv1); an init / next line names a sort, a state and
+   an expression - every combination, well-sorted or not, including the documented "bit-vector initialises an array"
+   case; a bad / constraint / output line names an expression of any kind, a sort id, an undefined, negated or zero id. *)
+LineDescr == { [op |-> op, pos |-> 0, kind |-> "line", ar |-> 0, sort |-> so, st |-> st, ex |-> ex] :
+                 op \in {"init", "next"}, so \in 1..5, st \in {6, 8, 9, 10, 11, 12}, ex \in 6..12 }
+        \cup { [op |-> op, pos |-> 0, kind |-> "line", ar |-> 0, sort |-> 0, st |-> 0, ex |-> ex] :
+                 op \in {"bad", "constraint", "output"}, ex \in (6..12) \cup {1, 3, 99, 0} \cup {0 - 7, 0 - 8, 0 - 1} }
+Init == d \in OpDescr \cup LineDescr /\ d.pos <= d.ar
 Next == UNCHANGED d
 Emit == PrintT(<<"PV", ToJson(d)>>)
 =============================================================================
